@@ -112,6 +112,12 @@ func c13Exec(method string, flusher bool, ops []int) (key string, bad string) {
 		spy = &rwSpy{hdr: http.Header{}}
 		under = spy
 	}
+	if strings.HasSuffix(method, "/over-GET-writer") {
+		// the writer under test wraps another flamego writer (created for a GET request) that wraps the
+		// spy: what reaches the spy is what the statement says of the outer writer's own method
+		method = strings.TrimSuffix(method, "/over-GET-writer")
+		under = flamego.NewResponseWriter("GET", under)
+	}
 	w := flamego.NewResponseWriter(method, under)
 	m := &rwModel{head: method == http.MethodHead, flusher: flusher}
 	var hookLog []string
@@ -285,6 +291,36 @@ func c13Run(r *core.Run) {
 				if d2 < treeDepth {
 					r.NotExhaustive("internal deadline (tree walk)")
 				}
+			}
+		}
+	}
+	// the same machine wrapped around another flamego writer (shallower: the inner writer adds nothing new)
+	nestedDepth := 5
+	if r.Thorough() {
+		nestedDepth = 7
+	}
+	r.Bounds["nested_writers"] = fmt.Sprintf("HEAD and GET writers over a GET flamego writer over the spy, depth %d", nestedDepth)
+	for _, method := range []string{"HEAD/over-GET-writer", "GET/over-GET-writer"} {
+		for _, fl := range []bool{false, true} {
+			method, fl := method, fl
+			step := func(hist []int, l *core.Local) (string, bool) {
+				l.Evals++
+				l.NonTrivial++
+				key, bad := c13Exec(method, fl, hist)
+				if bad != "" {
+					l.Violate("rw-model-mismatch/"+method+"/"+c13OpName(hist[len(hist)-1]), bad, c13Case{Method: method, Flusher: fl, Ops: c13Names(hist)})
+					l.Class("mismatch")
+					return "", false
+				}
+				l.Class("nested:" + c13OpName(hist[len(hist)-1]))
+				return key, true
+			}
+			b := &core.BFS{NumOps: len(c13OpNames), MaxDepth: nestedDepth, Step: step, Run: r, Dedup: true}
+			s, t, d := b.Search()
+			total.States += s
+			total.Transitions += t
+			if d < nestedDepth {
+				r.NotExhaustive("internal deadline (nested writers)")
 			}
 		}
 	}
